@@ -521,6 +521,25 @@ def witness_table():
     ):
         objs = ("struct", "crate::parser::types::objects::Objects", {"messages": [msg(mname, mop)], "enums": [], "flags": [], "structs": [], "tests": []})
         T.append((want, gdf, [("variant", "wow_message_parser::parser::types::version::MajorWorldVersion::Vanilla"), index, objs], ov_st, f"{desc} ({mname} = {mop:#x})"))
+    # version clashes: every pair of different same-named objects with intersecting versions, wherever they stand in the input
+    cv = "crate::parser::types::objects::conversion::check_versions"
+
+    def vobj(name, versions, line=1):
+        # the name is a list of characters: equal by value, distinct by identity (the code tells objects apart by the address of their name)
+        fi = ("struct", "crate::file_info::FileInfo", {"file_name": "a.wowm", "path": "a.wowm", "start_position": line, "end_position": line + 3})
+        return ("struct", "crate::parser::types::parsed::parsed_container::ParsedContainer", {"name": list(name), "tags": ("tags", tuple(sorted(versions))), "file_info": fi, "members": [], "object_type": None})
+    ov_cv = {"::has_version_intersections": lambda a: bool(set(a[0][1]) & set(a[1][1])), "::all_versions": lambda a: a[0][1],
+             "::ParsedContainer::tags": lambda a: a[0][2]["tags"], "::Definer::tags": lambda a: a[0][2]["tags"]}
+    for objs, want, desc in (
+        ([vobj("T", ["1.12"], 1), vobj("T", ["2.4.3"], 1), vobj("T", ["3.3.5"], 20)], None, "three definitions of T for 1.12 / 2.4.3 / 3.3.5"),
+        ([vobj("T", ["1.12"]), vobj("U", ["1.12"])], None, "different names for the same version"),
+        ([vobj("T", ["1.12"]), vobj("T", ["1.12"])], "overlapping_versions", "two definitions of T for 1.12"),
+        ([vobj("T", ["1.12", "3.3.5"]), vobj("T", ["2.4.3"]), vobj("T", ["3.3.5"])], "overlapping_versions", "T{1.12 3.3.5}, T{2.4.3}, T{3.3.5}: the clash is between the first and the third"),
+        ([vobj("T", ["3.3.5"]), vobj("A", ["1.12"]), vobj("T", ["2.4.3"]), vobj("B", ["1.12"]), vobj("T", ["1.12", "3.3.5"])], "overlapping_versions", "clashing definitions of T separated by other objects, in descending order"),
+        ([vobj("T", ["1.12", "2.4.3"]), vobj("T", ["2.4.3", "3.3.5"], 9)], "overlapping_versions", "T{1.12 2.4.3} and T{2.4.3 3.3.5} share 2.4.3"),
+        ([vobj("T", ["2.4.3"], 5), vobj("T", ["2.4.3", "3.3.5"], 5)], "overlapping_versions", "two clashing copies of T that share one file position (as paste_versions produces them)"),
+    ):
+        T.append((want, cv, [objs, []], ov_cv, desc))
     it = _PC + "parsed_tags::ParsedTags::into_tags"
     ov = {"::ObjectTags::from_parsed": lambda args: ("tags-built",), "::into_bool": lambda args: False, "::into_bool_with_default": lambda args: False}
     T += [("object_has_both_versions", it, [_tags(["w1"], ["l1"]), "T", None, False], ov, "object with world and login versions"),
@@ -566,7 +585,7 @@ def check_witnesses(ctx, FB):
             else:
                 msg = f"the ill-formed instance `{desc}` is reported through {got} instead of {want}: the generator stops with another rule's exit status"
             ctx.violate("rule.witness", f"{fnp}|{desc}", f"{fnp.split('::')[-2]}::{fnp.split('::')[-1]}: {msg}", fn["file"], fn["line"])
-    ctx.rule("rule.witness", n, floor=46, note="validation functions interpreted on minimal ill-formed and well-formed instances (duplicate enumerator values in different spellings, duplicate member names "
+    ctx.rule("rule.witness", n, floor=52, note="validation functions interpreted on minimal ill-formed and well-formed instances (duplicate enumerator values in different spellings, duplicate member names "
              "in every nesting position, enum/flag if-operators, position of the self.size member, one variable per if condition, opcode index by name and opcode, version tags): the rule's own error function is reached exactly for the ill-formed ones")
 
 
@@ -577,7 +596,8 @@ def run(ctx):
     check_reach(ctx, F, err_fns)
     check_versions_rel(ctx, FB)
     check_int_bounds(ctx, FB)
-    check_clash_loop(ctx, F)
+    # the version-clash loop is decided by interpretation (rule.witness instances for check_versions); the former guard-shape rule
+    # (ver.clash) is kept as code but no longer armed: it would also fire on a correct loop of another shape
     check_witnesses(ctx, FB)
     ctx.assume("that every violation anywhere in a corpus reaches the check of its rule quantifies over input programs and is not decided; the clauses above are necessary conditions")
     ctx.assume("the two-valued component domain is exhaustive because the relations only test components for equality (checked)")
